@@ -38,6 +38,7 @@ type Op struct {
 	G      int  `json:"g"`                // group selector
 	N      int  `json:"n,omitempty"`      // entries to append / commit advance / snapshot distance
 	Back   int  `json:"back,omitempty"`   // append: overwrite this many uncommitted tail entries
+	Redo   int  `json:"redo,omitempty"`   // append: the batch starts with this many stored uncommitted entries handed over again unchanged (same index, term and payload: a Ready whose unstable entries were truncated and extended between Ready and Advance)
 	Bump   bool `json:"bump,omitempty"`   // raise the current term first
 	WithHS bool `json:"withhs,omitempty"` // append: carry a hard state in the same Save
 	Inside bool `json:"inside,omitempty"` // install: snapshot index inside the stale uncommitted tail (if any)
@@ -258,6 +259,23 @@ func check(c Case, o *pbt.Obs) *pbt.Failure {
 					ents[i].Type = raftpb.EntryConfChange
 				}
 			}
+			if redo := uint64(op.Redo); redo > 0 && g.last-g.commit > back {
+				// stored entries in front of the new ones are part of the batch again, unchanged
+				if redo > g.last-g.commit-back {
+					redo = g.last - g.commit - back
+				}
+				same, err := g.ref.Entries(start-redo, start, 1<<62)
+				if err != nil || uint64(len(same)) != redo {
+					panic(fmt.Sprintf("harness: reference Entries(%d,%d) = %d entries, %v", start-redo, start, len(same), err))
+				}
+				ents = append(append([]raftpb.Entry(nil), same...), ents...)
+				start -= redo
+				n += int(redo)
+				o.Label("append-starts-with-unchanged-stored-entries")
+				if start+uint64(n)-1 < g.last {
+					o.Label("append-starts-with-unchanged-stored-entries-and-ends-before-the-old-last-index")
+				}
+			}
 			var hs raftpb.HardState
 			if op.WithHS {
 				hs = g.hardState()
@@ -408,6 +426,7 @@ func genCase(t *rapid.T) Case {
 		case OpAppend:
 			o.N = rapid.SampledFrom([]int{0, 0, 1, 1, 2, 3, 4, 5, 11, 29}).Draw(t, "n")
 			o.Back = rapid.SampledFrom([]int{0, 0, 0, 1, 2, 5}).Draw(t, "back")
+			o.Redo = rapid.SampledFrom([]int{0, 0, 0, 1, 2, 3}).Draw(t, "redo")
 			o.Bump = rapid.IntRange(0, 4).Draw(t, "bump") == 0
 			o.WithHS = rapid.Bool().Draw(t, "hs")
 			o.Big = rapid.IntRange(0, 4).Draw(t, "big")
@@ -449,7 +468,7 @@ func TestWalOnDiskVsMemoryStorage(t *testing.T) {
 func TestWalVsMemoryStorage(t *testing.T) {
 	pbt.Run(t, pbt.Prop[Case]{
 		ID: "C06", Name: "TestWalVsMemoryStorage",
-		Rule:  "rapid-generated raft-legal call sequences (contiguous appends incl. conflicting overwrites of the uncommitted tail from a newer term, hard-state saves with monotone term/commit, installs of received snapshots with index > commit both ahead of the log and inside the stale tail, optionally with following entries, CreateSnapshot(i) for snapshot < i <= commit, DeleteGroup + re-create, DeleteGroup and carrying on with the SAME store object as storage.partition does, reopen = fresh NewBadgerWAL on the same in-memory Badger) over 1-3 groups in one DB (nil id, and two ids sharing a 15-byte prefix); after every call FirstIndex/LastIndex/Term(first-2..last+2)/Entries(ranges x size limits incl. 0, no-limit and limits within 2 bytes of a cumulative-size boundary, lo<first)/Snapshot/InitialState are compared with etcd raft.MemoryStorage fed the same calls, for the touched group and every other group; non-trivial = a reopen after a compaction or snapshot install, or >=2 groups interleaved; distinct = distinct case JSON",
+		Rule:  "rapid-generated raft-legal call sequences (contiguous appends incl. conflicting overwrites of the uncommitted tail from a newer term and batches that begin with 1-3 stored uncommitted entries handed over again unchanged - so a batch may begin with a matching term, span several terms and end before the old last index -, hard-state saves with monotone term/commit, installs of received snapshots with index > commit both ahead of the log and inside the stale tail, optionally with following entries, CreateSnapshot(i) for snapshot < i <= commit, DeleteGroup + re-create, DeleteGroup and carrying on with the SAME store object as storage.partition does, reopen = fresh NewBadgerWAL on the same in-memory Badger) over 1-3 groups in one DB (nil id, and two ids sharing a 15-byte prefix); after every call FirstIndex/LastIndex/Term(first-2..last+2)/Entries(ranges x size limits incl. 0, no-limit and limits within 2 bytes of a cumulative-size boundary, lo<first)/Snapshot/InitialState are compared with etcd raft.MemoryStorage fed the same calls, for the touched group and every other group; non-trivial = a reopen after a compaction or snapshot install, or >=2 groups interleaved; distinct = distinct case JSON",
 		Gen:   genCase,
 		Check: check,
 	})
